@@ -163,6 +163,19 @@ def check_state(ctx, obj, op, extra=None):
     if n == 1:
         ctx.count("state:single-row")
     # derived figures = plain interval arithmetic
+    exp = expected_figures(obj)
+    for name, want in exp.items():
+        got = getattr(obj, name[:-2])() if name.endswith("()") else getattr(obj, name)
+        if got != want:
+            viol("derived-figure:" + name.rstrip("()"), f"{name}={got}, interval arithmetic gives {want}")
+    if exp["start_overhang"] > 0:
+        ctx.count("state:positive-start-overhang")
+    if exp["end_overhang"] > 0:
+        ctx.count("state:positive-end-overhang")
+
+
+def expected_figures(obj):
+    bait, rows = obj.bait, obj.rows
     exp = {
         "start_overhang": bait.start - obj.start,
         "end_overhang": obj.end - bait.end,
@@ -183,19 +196,35 @@ def check_state(ctx, obj, op, extra=None):
             break
     exp["overhang_if_start_removed()"] = bait.start - s2
     exp["overhang_if_end_removed()"] = e2 - bait.end
-    for name, want in exp.items():
-        got = getattr(obj, name[:-2])() if name.endswith("()") else getattr(obj, name)
-        if got != want:
-            viol("derived-figure:" + name.rstrip("()"), f"{name}={got}, interval arithmetic gives {want}")
-    if exp["start_overhang"] > 0:
-        ctx.count("state:positive-start-overhang")
-    if exp["end_overhang"] > 0:
-        ctx.count("state:positive-end-overhang")
+    return exp
 
 
 def attach(ctx, origin="insitu"):
+    from tola.assembly import build_utils
     from tola.assembly.indexed_assembly import IndexedAssembly
     from tola.assembly.overlap_result import OverlapResult
+
+    def premise_reports_plain_arithmetic(args, kwargs):
+        # the what-if figures the resolver decides on are reported through the premise objects
+        pr = args[0]
+        obj = pr.scaffold
+        if not getattr(obj, "rows", None):
+            return
+        e = expected_figures(obj)
+        side = "start" if isinstance(pr, build_utils.StartOverhangPremise) else "end"
+        want = {
+            "bait_overlap": e[f"{side}_row_bait_overlap"],
+            "overhang_if_applied": e[f"overhang_if_{side}_removed()"],
+            "overhang_error_delta_if_applied": abs(e[f"overhang_if_{side}_removed()"]) - abs(e[f"{side}_overhang"]),
+        }
+        ctx.count(f"premise-figures-checked:{side}")
+        for name, w in want.items():
+            got = getattr(pr, name)
+            if got != w:
+                ctx.violation(f"premise-figure:{side}:{name}", f"{type(pr).__name__}.{name}={got}, interval arithmetic gives {w}; bait {obj.bait} span {obj.start}-{obj.end} rows {[str(r) for r in obj.rows][:6]}",
+                              {"kind": "premise", "side": side})
+
+    contracts.attach(build_utils.OverhangPremise, "improves", on_call=premise_reports_plain_arithmetic, label="C18.OverhangPremise.improves")
 
     def born(self, bait, result):
         if result is None or not isinstance(result, OverlapResult):
@@ -385,6 +414,8 @@ def plan(tier, seed):
 def gates(c, tier):
     need = {
         "tracked-objects": 1000,
+        "premise-figures-checked:start": 200,
+        "premise-figures-checked:end": 200,
         "op:discard_start": 50,
         "op:discard_end": 50,
         "insitu:states": 500,
